@@ -32,7 +32,7 @@ u64 _Block_copy(u64 b) { return b; } void _Block_release(u64 b) { }
 void _dispatch_temporary_resource_shortage(void) { ASSERT(0, "resource shortage"); }
 void dispatch_async_f(u64 q, u64 c, u64 f) { ASSERT(0, "unexpected async"); }
 void _dispatch_object_finalize(u64 o) { } void _dispatch_introspection_queue_dispose(u64 o) { }
-#if MODE == 2
+#if MODE == 2 || MODE == 3
 #define MAXOUT 16
 #else
 #define MAXOUT (N + 2)
@@ -56,6 +56,21 @@ static u64 mkinput(void) {
   return dispatch_data_create_concat(a, b);
 #endif
 }
+#define UTF16_T (FMT == 3 ? G__dispatch_data_format_type_utf16le : G__dispatch_data_format_type_utf16be)
+/* reference: is b[0..n) well-formed UTF-8 (Unicode 3.9 table 3-7: no overlong forms, no surrogates, <= U+10FFFF)?  Written for the harness, independent of transform.c */
+static _Bool ref_utf8_wf(const u8 *b, int n) {
+  int i = 0;
+  while (i < n) { u8 c = b[i];
+    if (c < 0x80) { i += 1; continue; }
+    if (c >= 0xC2 && c <= 0xDF) { if (i + 1 >= n || (b[i + 1] & 0xC0) != 0x80) return 0; i += 2; continue; }
+    if (c >= 0xE0 && c <= 0xEF) { if (i + 2 >= n) return 0; u8 d = b[i + 1];
+      if ((d & 0xC0) != 0x80 || (b[i + 2] & 0xC0) != 0x80) return 0;
+      if (c == 0xE0 && d < 0xA0) return 0; if (c == 0xED && d > 0x9F) return 0; i += 3; continue; }
+    if (c >= 0xF0 && c <= 0xF4) { if (i + 3 >= n) return 0; u8 d = b[i + 1];
+      if ((d & 0xC0) != 0x80 || (b[i + 2] & 0xC0) != 0x80 || (b[i + 3] & 0xC0) != 0x80) return 0;
+      if (c == 0xF0 && d < 0x90) return 0; if (c == 0xF4 && d > 0x8F) return 0; i += 4; continue; }
+    return 0; }
+  return 1; }
 #define FMT_T (FMT == 0 ? G__dispatch_data_format_type_base32 : FMT == 1 ? G__dispatch_data_format_type_base32hex : G__dispatch_data_format_type_base64)
 /* independent reference decoders (RFC 4648), written for the harness: value of a character, -1 if not in the alphabet */
 static int ref_val(u8 c) {
@@ -97,6 +112,22 @@ void harness(void) {
     ASSERT(nout == N, "ENCODE: the text carries exactly the input bytes");
     for (int i = 0; i < N; i++) ASSERT(dec[i] == in_byte[i], "ROUNDTRIP: the reference decoder recovers the original bytes from the real encoder's text, independent of how the input was fragmented"); }
   WITNESS_REACHED("encoding checked");
+#elif MODE == 3
+  /* UTF: well-formed UTF-8 -> UTF-16 (FMT 3 little, 4 big endian) -> UTF-8, with the input split after SPLIT bytes and the UTF-16 text re-fragmented after SPLIT2 bytes
+     (the text starts with a 2-byte byte-order mark: SPLIT2 = 4 with a 4-byte input character is the boundary between the two surrogates, odd SPLIT2 cuts a code unit).
+     Explored path by path; the verdict of a path is accumulated in one flag (one solver call per path). */
+  ASSUME(ref_utf8_wf(in_byte, N));
+  ASSUME(!(N >= 3 && in_byte[0] == 0xEF && in_byte[1] == 0xBB && in_byte[2] == 0xBF));      /* the property exempts a leading byte-order mark */
+  u64 e = dispatch_data_create_with_transform(d, G__dispatch_data_format_type_utf8, UTF16_T);
+  _Bool good = e != 0; u64 esz = 0, r = 0;
+  if (good) { esz = dispatch_data_get_size(e); good = esz >= 2 && esz <= 2 + 2 * (u64)N && (esz & 1) == 0;
+#if SPLIT2 > 0
+    if (good && (u64)SPLIT2 < esz) { u64 e1 = dispatch_data_create_subrange(e, 0, SPLIT2), e2 = dispatch_data_create_subrange(e, SPLIT2, ~0ull); e = dispatch_data_create_concat(e1, e2); }
+#endif
+    if (good) { r = dispatch_data_create_with_transform(e, UTF16_T, G__dispatch_data_format_type_utf8); good = r != 0; }
+    if (good) { good = dispatch_data_get_size(r) == (u64)N; observe(r); good = good & out_ok & (out_n == (u64)N); for (int i = 0; i < N; i++) good = good & (out[i] == in_byte[i]); } }
+  ASSERT(good, "UTF ROUNDTRIP: well-formed UTF-8 converted to UTF-16 and back is the original text, independent of how the input and the UTF-16 text are fragmented (and no heap access outside a live object on the way)");
+  WITNESS_REACHED("a well-formed text made the round trip");
 #else
   u64 e = dispatch_data_create_with_transform(d, G__dispatch_data_format_type_none, FMT_T);
   ASSERT(e != 0, "ROUNDTRIP: encoding never fails");
